@@ -170,12 +170,77 @@ def match(p, n, b):
 AUDIT = None
 
 
+def _blocks(st):
+    out = []
+    for fld in ('body', 'orelse', 'finalbody'):
+        v = getattr(st, fld, None)
+        if isinstance(v, list) and v and isinstance(v[0], ast.stmt):
+            out.append((st, fld))
+    return out
+
+
+def collapse(node):
+    """Copy of a compound statement in which every temporary that is bound by
+    a plain `t = E` and read exactly once, in the very next statement of the
+    same block (and nowhere else in the statement), is replaced by E.  Applied
+    to a template and to the code alike, it makes a multi-statement template
+    independent of how many such temporaries the code uses."""
+    import copy
+    node = copy.deepcopy(node)
+
+    def reads(root, name):
+        return [x for x in ast.walk(root) if isinstance(x, ast.Name) and
+                x.id == name and isinstance(x.ctx, ast.Load)]
+
+    def do(stmts, outer):
+        changed = True
+        while changed:
+            changed = False
+            for i, st in enumerate(stmts[:-1]):
+                if not (isinstance(st, ast.Assign) and len(st.targets) == 1
+                        and isinstance(st.targets[0], ast.Name)):
+                    continue
+                t = st.targets[0].id
+                if t == '__':
+                    continue
+                nxt = stmts[i + 1]
+                here = reads(nxt, t)
+                total = sum(len(reads(s_, t)) for s_ in outer)
+                if len(here) != 1 or total != 1:
+                    continue
+                if sum(1 for s_ in outer for x in ast.walk(s_)
+                       if isinstance(x, ast.Name) and x.id == t and
+                       isinstance(x.ctx, ast.Store)) != 1:
+                    continue
+                target = here[0]
+
+                class R(ast.NodeTransformer):
+                    def visit_Name(self, n):
+                        if n is target:
+                            return st.value
+                        return n
+                stmts[i + 1] = R().visit(nxt)
+                del stmts[i]
+                changed = True
+                break
+        for st in stmts:
+            for owner, fld in _blocks(st):
+                do(getattr(owner, fld), outer)
+
+    for owner, fld in _blocks(node):
+        do(getattr(owner, fld), [node])
+    return node
+
+
+_COLLAPSED = {}
+
+
 def find(pattern, root, bindings=None):
     """All (node, binding) in `root` matching the template source."""
     p = parse(pattern) if isinstance(pattern, str) else pattern
     out = []
-    nodes = ast.walk(root) if isinstance(root, ast.AST) else \
-        itertools.chain.from_iterable(ast.walk(r) for r in root)
+    nodes = list(ast.walk(root)) if isinstance(root, ast.AST) else \
+        list(itertools.chain.from_iterable(ast.walk(r) for r in root))
     for n in nodes:
         if isinstance(p, ast.stmt) != isinstance(n, ast.stmt):
             continue
@@ -185,6 +250,21 @@ def find(pattern, root, bindings=None):
             if AUDIT is not None and isinstance(n, ast.stmt):
                 AUDIT.append((pattern if isinstance(pattern, str) else '?',
                               n))
+    if not out and isinstance(p, ast.stmt) and any(
+            len(getattr(o, f)) > 1 for o, f in _blocks(p)):
+        # multi-statement template: compare modulo single-use temporaries
+        pc = collapse(p)
+        for n in nodes:
+            if type(n) is not type(p):
+                continue
+            if id(n) not in _COLLAPSED:
+                _COLLAPSED[id(n)] = (n, collapse(n))
+            b = dict(bindings or {})
+            if match(pc, _COLLAPSED[id(n)][1], b):
+                out.append((n, b))
+                if AUDIT is not None:
+                    AUDIT.append((pattern if isinstance(pattern, str)
+                                  else '?', n))
     return out
 
 
